@@ -273,9 +273,14 @@ def check_paths(ctx, rep, rule, roots, stop=(), label=None, extra_discharge=None
                       sample={"site": key, "discharged": why} if not s["ok"] else None)
             continue
         rkey = "%s:%s:%s:%d" % (s["fn"], s["kind"], s["what"].split("::")[-1], s["ord"])
-        if rkey in reviewed:
+        rv = reviewed.get(rkey)
+        if rv is None:
+            for k2, e2 in reviewed.items():
+                if k2.endswith(":*") and rkey.startswith(k2[:-1]):
+                    rv = e2
+        if rv is not None:
             n_rev += 1
-            rep.check(rule, key, True, "", "%s:%s" % (s["file"], s["line"]), sample={"site": key, "reviewed": reviewed[rkey]["why"]})
+            rep.check(rule, key, True, "", "%s:%s" % (s["file"], s["line"]), sample={"site": key, "reviewed": rv["why"]})
             continue
         n_open += 1
         rep.check(rule, key, False,
